@@ -51,6 +51,13 @@ struct Sm64
   explicit Sm64(uint64_t x) : s(x) {}
   uint64_t next() { return mix64(s += 0x9E3779B97F4A7C15ull); }
   uint64_t below(uint64_t n) { return n ? next() % n : 0; }
+  bytes bytes_(size_t n)
+  {
+    bytes b(n);
+    for (size_t i = 0; i < n; i++)
+      b[i] = (uint8_t)(next() >> 24);
+    return b;
+  }
 };
 
 // shard helper for fixed enumerations
